@@ -52,9 +52,32 @@ def step(coro):
     return ('susp', w)
 
 
+class HalfOpenWriter:
+    """a transport whose peer has gone but which still accepts writes (a half-closed TCP connection does): the real providers keep
+    exactly such a StreamWriter in their .writer attribute until close()"""
+    def __init__(self):
+        self.data = []
+
+    def write(self, b):
+        self.data.append(b)
+
+    async def drain(self):
+        return None
+
+    def is_closing(self):
+        return False
+
+    def close(self):
+        pass
+
+    async def wait_closed(self):
+        return None
+
+
 class Prov:
     def __init__(self, open_=True):
         self.open = open_; self.closed = 0
+        self.reader = "reader"; self.writer = HalfOpenWriter()      # like HostPortConnectionProvider / ReaderWriterConnectionProvider
 
     def is_open(self):
         return self.open
